@@ -307,6 +307,22 @@ def _alarm(_s, _f):
     raise CaseTimeout()
 
 
+def call_limited(fn, secs):
+    """Run fn() under its own one-shot alarm (for calls that are known not to terminate on some inputs outside the properties'
+    preconditions, e.g. boundary_loops on a pinched boundary); returns (value, None) or (None, "Timeout"); the case's own
+    timer is restored afterwards."""
+    old = signal.getitimer(signal.ITIMER_REAL)
+    t0 = time.time()
+    signal.setitimer(signal.ITIMER_REAL, secs, 0.5)
+    try:
+        return fn(), None
+    except CaseTimeout:
+        return None, "Timeout"
+    finally:
+        rest = max(old[0] - (time.time() - t0), 0.05) if old[0] > 0 else 0
+        signal.setitimer(signal.ITIMER_REAL, rest, old[1])
+
+
 _WORK_FN = None
 
 
